@@ -679,4 +679,102 @@ theorem length_rowEmit {A B : CSR} (hA : A.WF) (hBw : B.WF) (i : Nat) :
   unfold rowEmit
   rw [List.length_map, keys_touches hA hBw]
 
+/-! ### progress of the `while` loops of `_dot_coo_ndarray*` -/
+
+theorem spanAcc_ge (r : Nat) (w : Nat → Int) (l : List Ent) : ∀ (acc : Int) (n : Nat), n ≤ (spanAcc r w l acc n).2 := by
+  induction l with
+  | nil => intro acc n; exact Nat.le_refl _
+  | cons e rest ih =>
+    intro acc n
+    unfold spanAcc
+    split
+    · exact Nat.le_trans (Nat.le_succ n) (ih _ _)
+    · exact Nat.le_refl _
+
+/-- the inner `while` consumes at least the element it was started on -/
+theorem spanAcc_pos (w : Nat → Int) (e : Ent) (rest : List Ent) (acc : Int) :
+    1 ≤ (spanAcc e.1 w (e :: rest) acc 0).2 := by
+  unfold spanAcc
+  simp only [if_true]
+  exact spanAcc_ge _ _ _ _ _
+
+theorem drop_eq_cons {β : Type} (l : List β) (d : Nat) (h : d < l.length) :
+    ∃ e rest, l.drop d = e :: rest := ⟨_, _, List.drop_eq_getElem_cons h⟩
+
+/-- with at least one output column the body of the outer loop of `_dot_coo_ndarray` advances `didx1` -/
+theorem cooNdStep_progress (nCols : Nat) (es : List Ent) (x2 : Dense) (didx1 : Nat) (out : Dense)
+    (hc : 0 < nCols) (hd : didx1 < es.length) : didx1 < (cooNdStep nCols es x2 didx1 out).2 := by
+  obtain ⟨m, rfl⟩ : ∃ m, nCols = m + 1 := ⟨nCols - 1, by omega⟩
+  obtain ⟨e, rest, he⟩ := drop_eq_cons es didx1 hd
+  unfold cooNdStep
+  rw [List.range_succ, List.foldl_append, he]
+  simp only [List.foldl_cons, List.foldl_nil, List.headD_cons]
+  exact Nat.lt_add_of_pos_right (spanAcc_pos _ _ _ _)
+
+theorem cooNdSparseStep_progress (nCols : Nat) (es : List Ent) (x2 : Dense) (didx1 : Nat)
+    (hc : 0 < nCols) (hd : didx1 < es.length) : didx1 < (cooNdSparseStep nCols es x2 didx1).2 := by
+  obtain ⟨m, rfl⟩ : ∃ m, nCols = m + 1 := ⟨nCols - 1, by omega⟩
+  obtain ⟨e, rest, he⟩ := drop_eq_cons es didx1 hd
+  unfold cooNdSparseStep
+  rw [List.range_succ, List.foldl_append, he]
+  simp only [List.foldl_cons, List.foldl_nil, List.headD_cons]
+  exact Nat.lt_add_of_pos_right (spanAcc_pos _ _ _ _)
+
+theorem cooNdRun_terminates (nCols : Nat) (es : List Ent) (x2 : Dense) (hc : 0 < nCols) :
+    ∀ (fuel didx1 : Nat) (out : Dense), es.length - didx1 < fuel → ∃ r, cooNdRun nCols es x2 fuel didx1 out = some r := by
+  intro fuel
+  induction fuel with
+  | zero => intro d out h; omega
+  | succ fuel ih =>
+    intro d out h
+    unfold cooNdRun
+    by_cases hd : d < es.length
+    · simp only [hd, if_true]
+      apply ih
+      have := cooNdStep_progress nCols es x2 d out hc hd
+      omega
+    · simp only [hd, if_false]
+      exact ⟨out, rfl⟩
+
+theorem cooNdSparseRun_terminates (nCols : Nat) (es : List Ent) (x2 : Dense) (hc : 0 < nCols) :
+    ∀ (fuel didx1 : Nat) (out : List (Nat × Nat × Int)), es.length - didx1 < fuel →
+      ∃ r, cooNdSparseRun nCols es x2 fuel didx1 out = some r := by
+  intro fuel
+  induction fuel with
+  | zero => intro d out h; omega
+  | succ fuel ih =>
+    intro d out h
+    unfold cooNdSparseRun
+    by_cases hd : d < es.length
+    · simp only [hd, if_true]
+      apply ih
+      have := cooNdSparseStep_progress nCols es x2 d hc hd
+      omega
+    · simp only [hd, if_false]
+      exact ⟨out, rfl⟩
+
+/-- with no output column the outer loop never advances: every amount of fuel runs out -/
+theorem cooNdRun_zero_cols (es : List Ent) (x2 : Dense) :
+    ∀ (fuel didx1 : Nat) (out : Dense), didx1 < es.length → cooNdRun 0 es x2 fuel didx1 out = none := by
+  intro fuel
+  induction fuel with
+  | zero => intro d out _; rfl
+  | succ fuel ih =>
+    intro d out hd
+    unfold cooNdRun
+    simp only [hd, if_true]
+    exact ih d out hd
+
+theorem cooNdSparseRun_zero_cols (es : List Ent) (x2 : Dense) :
+    ∀ (fuel didx1 : Nat) (out : List (Nat × Nat × Int)), didx1 < es.length →
+      cooNdSparseRun 0 es x2 fuel didx1 out = none := by
+  intro fuel
+  induction fuel with
+  | zero => intro d out _; rfl
+  | succ fuel ih =>
+    intro d out hd
+    unfold cooNdSparseRun
+    simp only [hd, if_true]
+    exact ih d _ hd
+
 end SparseV.Dot
